@@ -8,7 +8,11 @@ from mpv import arr, cmdgen, ref, syntax
 
 
 # ---------------------------------------------------------------- generation
-def gen_table(rng, ncols=None, nrows=None):
+def gen_table(rng, ncols=None, nrows=None, shape=None):
+    if shape is not None:
+        nrows = 1
+        for e in shape:
+            nrows *= e
     nrows = nrows or rng.randint(2, 14)
     ncols = ncols or rng.randint(1, 4)
     missing = rng.choice([None, -9999, -9999, 0, 99])
@@ -26,11 +30,17 @@ def gen_table(rng, ncols=None, nrows=None):
             data[0] = 3 if integer else 3.5
             data[1 % nrows] = -2 if integer else -2.25
         cols["X%d" % i] = {"data": data, "integer": integer}
-    return {"cols": cols, "nrows": nrows, "missing": missing, "file": "in.csv"}
+    t = {"cols": cols, "nrows": nrows, "missing": missing, "file": "in.csv"}
+    if shape is not None:
+        t["shape"] = list(shape)
+        t["file"] = "in.nc"
+    return t
 
 
 def write_table(table, d):
     path = os.path.join(d, table["file"])
+    if table["file"].endswith(".nc"):
+        return write_table_nc(table, path)
     names = list(table["cols"])
     with open(path, "w") as f:
         f.write(",".join(names) + "\n")
@@ -42,8 +52,29 @@ def write_table(table, d):
 NAME_POOL = ["A", "a", "B", "b", "C", "D", "E", "F", "G", "H", "Slope", "slope", "Wet", "WET", "Fz", "fz", "Res", "Layer1", "Layer2", "T", "U", "V", "W", "Y", "Z", "k", "K", "m", "M"]
 
 
-def gen_model(rng, n_ops=None, sinks=True, cmds=None, table=None, metadata=False, min_reads=1, pooled_names=True):
-    table = table or gen_table(rng)
+def write_table_nc(table, path):
+    """The table as a NetCDF dataset: one variable per column over dimensions d0.. (with coordinate variables, so that the
+    file can also serve as the dimension template of EEMSWrite)."""
+    import numpy
+    from netCDF4 import Dataset
+    shape = tuple(table.get("shape") or [table["nrows"]])
+    with Dataset(path, "w") as ds:
+        dims = []
+        for i, n in enumerate(shape):
+            nm = "d%d" % i
+            ds.createDimension(nm, n)
+            v = ds.createVariable(nm, "f8", (nm,))
+            v[:] = numpy.arange(n) * 10.0
+            dims.append(nm)
+        for name, c in table["cols"].items():
+            v = ds.createVariable(name, "i8" if c["integer"] else "f8", tuple(dims))
+            v[:] = numpy.array(c["data"], dtype="int64" if c["integer"] else "float64").reshape(shape)
+    return path
+
+
+def gen_model(rng, n_ops=None, sinks=True, cmds=None, table=None, metadata=False, min_reads=1, pooled_names=True, libs="csv"):
+    if table is None:
+        table = gen_table(rng) if libs == "csv" else gen_table(rng, shape=rng.choice([(rng.randint(2, 12),), (rng.randint(1, 4), rng.randint(2, 5)), (2, rng.randint(1, 3), rng.randint(1, 3))]))
     commands = []
     pool = {"nonfuzzy": [], "fuzzy": []}
     colvals = {}
@@ -52,7 +83,7 @@ def gen_model(rng, n_ops=None, sinks=True, cmds=None, table=None, metadata=False
     for i, col in enumerate(names[:nreads]):
         args = {"InFileName": table["file"], "InFieldName": col}
         if table["missing"] is not None:
-            args["MissingVal"] = table["missing"]
+            args["MissingVal" if libs == "csv" else "MissingValue"] = table["missing"]
         if table["cols"][col]["integer"]:
             args["DataType"] = "Integer"
         elif rng.random() < 0.5:
@@ -95,7 +126,10 @@ def gen_model(rng, n_ops=None, sinks=True, cmds=None, table=None, metadata=False
     if sinks and rng.random() < 0.7:
         allres = pool["fuzzy"] + pool["nonfuzzy"]
         k = rng.randint(1, min(3, len(allres)))
-        commands.append({"result": "Out", "cmd": "EEMSWrite", "args": {"OutFileName": "out.csv", "OutFieldNames": list(dict.fromkeys(rng.choice(allres) for _ in range(k)))}})
+        wargs = {"OutFileName": "out.csv" if libs == "csv" else "out.nc", "OutFieldNames": list(dict.fromkeys(rng.choice(allres) for _ in range(k)))}
+        if libs != "csv":
+            wargs.update({"DimensionFileName": table["file"], "DimensionFieldName": names[0]})
+        commands.append({"result": "Out", "cmd": "EEMSWrite", "args": wargs})
     if sinks and rng.random() < 0.3:
         allres = pool["fuzzy"] + pool["nonfuzzy"]
         commands.append({"result": "Printed", "cmd": "PrintVars", "args": {"InFieldNames": [rng.choice(allres)], "OutFileName": "vars.txt"}})
@@ -103,7 +137,14 @@ def gen_model(rng, n_ops=None, sinks=True, cmds=None, table=None, metadata=False
         for c in commands:
             if rng.random() < 0.4:
                 c["args"]["Metadata"] = {"DisplayName": rng.choice(["Layer one", "x", "Slope (deg)"]), "Color": rng.choice(["Blue", "#ff0000"])}
-    return {"table": table, "commands": commands}
+    m = {"table": table, "commands": commands}
+    if libs != "csv":
+        m["libs"] = "nc"
+    return m
+
+
+def model_libs(model):
+    return arr.NC_LIBS if model.get("libs") == "nc" else arr.CSV_LIBS
 
 
 def permuted(model, rng):
@@ -186,7 +227,8 @@ def value_ast(v, kind, rng=None):
     return {"t": "qstr", "v": str(v), "q": '"'}
 
 
-def to_ast(model, rng=None, libs=arr.CSV_LIBS):
+def to_ast(model, rng=None, libs=None):
+    libs = libs or model_libs(model)
     kinds = param_kinds(libs)
     cmds = []
     for c in model["commands"]:
@@ -197,16 +239,17 @@ def to_ast(model, rng=None, libs=arr.CSV_LIBS):
     return {"commands": cmds}
 
 
-def to_text(model, rng=None, style="canon", libs=arr.CSV_LIBS, **kw):
+def to_text(model, rng=None, style="canon", libs=None, **kw):
     ast = to_ast(model, rng, libs)
     text = syntax.render(ast, rng if style != "canon" else None, style, **kw)
     return text, ast
 
 
 # ---------------------------------------------------------------- loading / running
-def load(model, d, text=None, libs=arr.CSV_LIBS):
+def load(model, d, text=None, libs=None):
     """Program.from_source on the rendered model inside scratch dir d (the table is written there)."""
     from mpilot.program import Program
+    libs = libs or model_libs(model)
     write_table(model["table"], d)
     if text is None:
         text, _ = to_text(model, libs=libs)
